@@ -220,7 +220,7 @@ def run(ck):
             def thf(it):
                 s = make_state(it, cls)
                 data = tens(it, "data", ("N", "nv"))
-                kw = {"lr": VNum("float", T.sym("lr"), pos=True)}
+                kw = {"lr": VNum("float", T.sym("lr"), pos=True), "k": VNum("int", T.sym("kfit"), nonneg=True)}
                 if cls != "PositiveWaveFunction":
                     kw["input_bases"] = api.bases_arr(it, "input_bases", "N")
                 call(it, s, "fit", data, **kw)
@@ -232,6 +232,11 @@ def run(ck):
                 it = p.interp
                 s = p.value
                 nets = state_networks(it, s)
+                # the number of Gibbs steps asked for is the number used, for every k >= 0 (k = 0 included)
+                for c_ in [c for c in p.calls if c[0].endswith(".compute_batch_gradients")][:1]:
+                    kt = num_term(argp(c_[5], 1))
+                    ck.check(kt == T.sym("kfit"), "C06.R3", inst + ":k forwarded to every batch [%s]" % path_tag(p), fsite,
+                             "fit(k=k) computes the batch gradients with k = %r: the requested number of Gibbs steps is not used on this path" % (kt,))
                 allp = []
                 for n in nets:
                     allp += [q.obj for _, q in module_params(it, it.get_attr(s, n, None))]
